@@ -318,6 +318,7 @@ class PoolWorldH(object):
             accepted = []
             received = []
             refused = [0]
+            late = set()
 
             def create_connection(addr, timeout=None, source_address=None):
                 if cfg.get('faults') and ch.choose(2, 'connect', 'data') == 1:
@@ -335,6 +336,7 @@ class PoolWorldH(object):
                     if cfg.get('delays') and ch.choose(2, 'delay-response', 'sched') == 1:
                         w.env_wait('origin-replies-%s' % sender)
                     if f == 3:
+                        late.add(sender)
                         gevent.sleep(12.0)          # the answer comes after the relay's timeout (9 s)
                         f = 0
                     if f == 0:
@@ -399,12 +401,93 @@ class PoolWorldH(object):
                         self.viol.append(('non-relay-exception', 'attempt() of %s raised %r' % (r['sender'], val)))
                     elif ('for ' in str(val.reply)) and ('for ' + r['sender']) not in str(val.reply):
                         self.viol.append(('result-of-another-request', 'attempt() of %s raised %r' % (r['sender'], val.reply)))
+                    elif r['sender'] in accepted and r['sender'] not in late and not cfg.get('delays'):
+                        # the origin took this very message (and answered in time), yet the attempt is reported as failed:
+                        # it tripped over what another request left behind on the connection
+                        self.viol.append(('accepted-but-reported-failed', 'attempt() of %s raised %r although the origin accepted its request with 200 in time'
+                                          % (r['sender'], val.reply)))
                     elif r['sender'] not in received and not refused[0]:
                         # no connection was refused, yet this request never reached the origin: it failed on the state
                         # another request left behind in the client or its connection
                         self.viol.append(('failed-without-reaching-the-origin', 'attempt() of %s raised %r although no connection was refused and the '
                                           'origin never saw its request (requests seen: %r)' % (r['sender'], val.reply, received)))
             self.errors = [e for e in w.errors() if e[0] not in ('RemoteDisconnected', 'ConnectionRefusedError', 'OSError')]
+        return (tuple(repr(r['outcome'])[:60] for r in callers), len(peers), tuple(sorted(set(v[0] for v in self.viol))))
+
+
+# ------------------------------------------------------------------ layer M (MxSmtpRelay: one pool per destination)
+class PoolWorldM(object):
+    def __init__(self, ch, cfg):
+        self.ch, self.cfg = ch, cfg
+        self.viol = []
+        self.overlap = False
+
+    def run(self):
+        import slimta.relay.smtp.mx as mx
+        from gevent.event import AsyncResult
+        cfg, ch = self.cfg, self.ch
+        with World(ch, max_steps=4000) as w:
+            net = Net(w)
+            peers = []
+            R = types.SimpleNamespace
+
+            class Stub(object):
+                @classmethod
+                def query(cls, name, qtype):
+                    r = AsyncResult()
+                    ans = [R(priority=10, host='mx1.%s' % name, ttl=300)] if qtype == 'MX' else [R(host='192.0.2.1', ttl=300)]
+                    if cfg.get('slow_dns'):
+                        w.add_event('dns-%s-%s' % (qtype, name), lambda: r.set(ans))
+                    else:
+                        r.set(ans)
+                    return r
+            w.patch(mx, 'DNSResolver', Stub)
+
+            def creator(address):
+                client, server = net.pair(peername=address)
+                if cfg['pool_size'] and len(net.open) > cfg['pool_size']:
+                    self.viol.append(('pool-size-exceeded', '%d connections open to %r, pool_size %r' % (len(net.open), address, cfg['pool_size'])))
+                p = ScriptedPeer(server, {}, pipelining=True)
+                peers.append(p)
+                gevent.spawn(p.run)
+                return client
+            relay = mx.MxSmtpRelay(pool_size=cfg['pool_size'], socket_creator=creator, ehlo_as='relay.test', context=VContext(),
+                                   idle_timeout=cfg.get('idle_timeout'))
+            callers = []
+            inflight = [0]
+            for i in range(cfg['callers']):
+                env = make_envelope(i, 1)
+                env.recipients = ['u%d@example.com' % i]
+                rec = {'i': i, 'sender': 's%d@x' % i, 'outcome': None, 'started': False, 'env': env}
+                callers.append(rec)
+
+                def call(rec=rec):
+                    rec['started'] = True
+                    inflight[0] += 1
+                    if inflight[0] > 1:
+                        self.overlap = True
+                    try:
+                        rec['outcome'] = ('returned', relay.attempt(rec['env'], 0))
+                    except gevent.GreenletExit:
+                        raise
+                    except BaseException as e:
+                        rec['outcome'] = ('raised', e)
+                    finally:
+                        inflight[0] -= 1
+                w.add_event('caller%d' % i, lambda call=call: gevent.spawn(call))
+            w.loop.state_key = lambda: (
+                tuple(e.label for e in w.loop.env_events), tuple(sorted(round(t.due - w.loop._now, 6) for t in w.loop._timers)),
+                len(net.open), tuple((r['started'], repr(r['outcome'])[:50]) for r in callers),
+                tuple((len(p.transactions), p.closed) for p in peers), len(self.viol))
+            w.run_until_quiescent()
+            for r in callers:
+                if r['started'] and r['outcome'] is None:
+                    self.viol.append(('caller-blocked-forever', 'attempt() of %s never returned' % r['sender']))
+                elif r['outcome'] is not None:
+                    per, whole = classify(r['outcome'], r['env'])
+                    if not all(v == 'delivered' for v in per.values()):
+                        self.viol.append(('fault-free-attempt-failed', 'no fault was injected, yet attempt() of %s ended as %s' % (r['sender'], whole)))
+            self.errors = w.errors()
         return (tuple(repr(r['outcome'])[:60] for r in callers), len(peers), tuple(sorted(set(v[0] for v in self.viol))))
 
 
@@ -425,13 +508,15 @@ def configs(tier, seed):
                 if callers == 2 or ps == 1:
                     cfgs.append({'layer': 'B', 'lmtp': True, 'callers': callers, 'pool_size': ps, 'idle_timeout': it, 'faults': False, 'd': 1 if q else 2, 'dd': 0})
                     cfgs.append({'layer': 'B', 'lmtp': True, 'callers': callers, 'pool_size': ps, 'idle_timeout': it, 'faults': True, 'd': 0 if q else 1, 'dd': 2})
+                if ps == 1 or callers == 2:
+                    cfgs.append({'layer': 'M', 'callers': callers, 'pool_size': ps, 'idle_timeout': it, 'slow_dns': callers == 2, 'd': 2 if q else 3, 'dd': 0})
                 cfgs.append({'layer': 'H', 'callers': callers, 'pool_size': ps, 'idle_timeout': it, 'faults': True, 'delays': callers == 2, 'd': 1 if q else 2, 'dd': 2})
     return cfgs
 
 
 def run_one(cfg, ch):
     wcfg = {k: v for k, v in cfg.items() if k not in ('d', 'dd', 'layer')}
-    pw = {'A': PoolWorldA, 'B': PoolWorldB, 'H': PoolWorldH}[cfg['layer']](ch, wcfg)
+    pw = {'A': PoolWorldA, 'B': PoolWorldB, 'H': PoolWorldH, 'M': PoolWorldM}[cfg['layer']](ch, wcfg)
     obs = pw.run()
     return pw, obs
 
